@@ -1,4 +1,5 @@
 import LabtechModel.Proofs.Submit
+import LabtechModel.Proofs.InvMain
 /-!
 # C10 — One task's failure never disturbs unrelated tasks
 
@@ -12,6 +13,16 @@ Proved here, for every state, task and failing outcome (raise or death):
 * a failure still completes the task in the scheduler, so its dependents are unblocked exactly as
   for a success (`failure_completes_task`);
 * `run_tasks` returns only the requested tasks that have a captured result (`returned_only_captured`).
+
+Whole runs (from the master invariant of `Proofs/InvLoop.lean`):
+* `failure_isolated_status` (no hypothesis): with `continue_on_failure` no reachable loop-head state
+  has raised, whatever subset of tasks raise or die, and `run_tasks` never raises;
+* `failure_isolated_returns` (`Acyclic`, `FuelOK`, `LimitsPos`, `Fair` schedule long enough): it
+  terminates by returning;
+* `no_start_after_raise`: once `LabError` is raised the trace does not grow any more (no further
+  task is started), whatever the rest of the schedule.
+Not covered at whole-run level: "executes every task that does not depend on a failed one and returns its value"
+(needs the reference-evaluation theorem of C01).
 -/
 namespace Lt.Props.C10
 open Lt
@@ -105,5 +116,73 @@ example : (run { backend := .fork, maxWorkers := 2, contOnFail := true, bust := 
             [⟨fun _ => true⟩, ⟨fun _ => true⟩]).status = .returned [(1, 11)] ∧
           (run { backend := .fork, maxWorkers := 2, contOnFail := false, bust := false } exP [] 3
             [⟨fun _ => true⟩, ⟨fun _ => true⟩]).status = .raised (.labError 0) := by decide
+
+/-! ## whole runs -/
+
+/-- with `continue_on_failure` the coordinator never raises: every loop-head state is running and
+    the run ends running-out-of-schedule or returned -/
+theorem failure_isolated_status (cfg : Config) (p : Problem) (store : Store) (fuel : Nat) (sched : List Choice)
+    (hcf : cfg.contOnFail = true) :
+    (runLoop cfg p (reqTids p) sched (initRS cfg p store fuel)).status = .running ∧
+    ∀ e, (run cfg p store fuel sched).status ≠ .raised e := by
+  have h1 := loopHead_status_cof cfg p store fuel sched hcf
+  refine ⟨h1, ?_⟩
+  intro e he
+  have h2 : (run cfg p store fuel sched).status = (finish (reqTids p) (loopHead cfg p store fuel sched)).status := rfl
+  rw [h2] at he
+  simp only [finish, h1] at he
+  split at he <;> simp [h1] at he
+
+theorem failure_isolated_returns (cfg : Config) (p : Problem) (store : Store) (fuel : Nat) (sched : List Choice)
+    (hcf : cfg.contOnFail = true) (hA : Acyclic p) (hF : FuelOK p fuel) (hL : LimitsPos cfg p)
+    (hfair : Fair sched) (hlen : (plan cfg p store fuel).pending.length + 1 ≤ sched.length) :
+    ∃ r, (run cfg p store fuel sched).status = .returned r := by
+  rcases run_status_cases cfg p store fuel sched with h | h | ⟨t, h⟩
+  · exact absurd h (run_terminates cfg p store fuel sched hA hF hL hfair hlen)
+  · exact h
+  · exact absurd h ((failure_isolated_status cfg p store fuel sched hcf).2 _)
+
+/-- after a raise the rest of the schedule changes nothing: no further submit, start or yield -/
+theorem no_start_after_raise (cfg : Config) (p : Problem) (store : Store) (fuel : Nat) (sched more : List Choice)
+    (e : Err) (h : (runLoop cfg p (reqTids p) sched (initRS cfg p store fuel)).status = .raised e) :
+    runLoop cfg p (reqTids p) (sched ++ more) (initRS cfg p store fuel)
+      = runLoop cfg p (reqTids p) sched (initRS cfg p store fuel) := by
+  have key : ∀ (s : List Choice) (rs : RS), (runLoop cfg p (reqTids p) s rs).status = .raised e →
+      runLoop cfg p (reqTids p) (s ++ more) rs = runLoop cfg p (reqTids p) s rs := by
+    intro s
+    induction s with
+    | nil =>
+      intro rs hrs
+      simp only [runLoop] at hrs
+      exact raised_stops_loop cfg p _ more rs e hrs
+    | cons c cs ih =>
+      intro rs hrs
+      simp only [List.cons_append, runLoop] at hrs ⊢
+      split
+      · next hrun =>
+        simp only [hrun] at hrs
+        split
+        · next hl => simp only [hl, if_true] at hrs; exact ih _ hrs
+        · next hl =>
+          simp only [hl] at hrs
+          have : rs.status = .raised e := by simpa using hrs
+          rw [hrun] at this
+      · rfl
+  exact key sched _ h
+
+/-- non-vacuity: 2 dies and 1 raises in the diamond; with `continue_on_failure` the run returns
+    (3 handles the missing values itself); without it the first failure raises `LabError` -/
+example :
+    let pr : Problem := { invExP with fails := fun t => t == 1, dies := fun t => t == 2 }
+    (run invExCfg pr [] 4 (List.replicate 5 chooseAll)).status = .returned [(3, 3014)] ∧
+    (run { invExCfg with contOnFail := false } pr [] 4 (List.replicate 5 chooseAll)).status
+      = .raised (.labError 1) := by decide
+
+/-- the hypotheses of `failure_isolated_returns` are satisfiable together -/
+example (be : Backend) :
+    ∃ r, (run { invExCfg with backend := be } { invExP with fails := fun t => t == 1, dies := fun t => t == 2 }
+      [] 4 (List.replicate 5 chooseAll)).status = .returned r :=
+  failure_isolated_returns _ _ [] 4 _ rfl invExP_acyclic invExP_fuel (invEx_limits be 2 (by decide))
+    (fair_replicate 5 chooseAll rfl) (by cases be <;> decide)
 
 end Lt.Props.C10
